@@ -9,16 +9,15 @@
     table-only zones (C05_classification_table, C05_roundtrip_table), TZ strings / rule-only zones
     (C05_rule_zone_classification), COMPOSITE zones = table + footer rule
     (C05_composite_classification, C05_roundtrip_composite), and the value level of
-    Local.from_local_datetime (the C05_from_local_values theorems).  Still open: the rule round trip ON the
-    excepted boundary seconds (the property excepts them); composite zones whose last table
-    transition, read on the clocks involved, straddles a calendar-year boundary (clause (1) of
-    [footer_continues]; it holds whenever the last table transition is one of the rule's transitions
-    under the property's premise and the offset before it is one of the rule's two offsets). *)
+    Local.from_local_datetime (the C05_from_local_values theorems).  Composite zones whose last table
+    transition, read on the clocks involved, straddles a calendar-year boundary (excluded by clause (1)
+    of [footer_continues]) are covered by the _wide theorems (Proofs/C05Wide.v), which supersede the
+    one-year forms. *)
 From Coq Require Import ZArith List Bool.
 From V Require Import Base.Int Base.IO.
 From V Require Import Spec.Zone Proofs.TzCommon.
 From V Require Spec.Gregorian.
-From V Require Import Model.TzParser Model.TzRule Model.TzLookup Model.C05 Proofs.C05 Proofs.C05Composite Proofs.C05Glue Proofs.C05Judge.
+From V Require Import Model.TzParser Model.TzRule Model.TzLookup Model.C05 Proofs.C05 Proofs.C05Composite Proofs.C05Glue Proofs.C05Judge Proofs.C05Wide Proofs.C05Full Proofs.C05Holds.
 From V Require Model.Date Model.DateTime.
 Import ListNotations.
 Open Scope Z_scope.
@@ -254,7 +253,9 @@ Print Assumptions C05_zone_off_rule.
    PARTIAL w.r.t. the full classification against instants_of_wall of a zone with a rule: what is
    not proved is that for a wall reading of year y the oracle's candidates are exactly those of
    the year's two transitions (it needs the premise for the neighbouring years plus the window
-   algebra of rule_is_dst); the correspondence run covers that link. *)
+   algebra of rule_is_dst); the correspondence run covers that link.
+   SUPERSEDED by C05_rule_local_total + C05_rule_answer_table (every year, every second, no condition
+   on excepted seconds) and, against the oracle, by C05_rule_zone_every_second. *)
 Theorem C05_rule_local_year_table_partial : forall a y l, alt_ok a -> -2147483650 <= y <= 2147483650 ->
   ut_offset (a_std a) <> ut_offset (a_dst a) ->
   let '(ps, first) := year_table a y in
@@ -263,6 +264,8 @@ Theorem C05_rule_local_year_table_partial : forall a y l, alt_ok a -> -214748365
   alt_find_local_time_type_from_local a y l = Val (Ok (table_answer ps first l)).
 Proof. exact rule_local_as_table. Qed.
 Print Assumptions C05_rule_local_year_table_partial.
+(* PARTIAL in the same sense; SUPERSEDED by C05_rule_zone_every_second (the zone-level statement for
+   every second, with the oracle link) *)
 Theorem C05_from_local_rule_zone_partial : forall z a first y l,
   transitions z = [] -> index (local_time_types z) 0 = Val first -> extra_rule z = Some (Alternate a) ->
   alt_ok a -> -2147483650 <= y <= 2147483650 -> ut_offset (a_std a) <> ut_offset (a_dst a) ->
@@ -272,6 +275,91 @@ Theorem C05_from_local_rule_zone_partial : forall z a first y l,
   find_local_time_type_from_local z y l = Val (Ok (table_answer ps prev l)).
 Proof. exact from_local_rule_zone. Qed.
 Print Assumptions C05_from_local_rule_zone_partial.
+
+(** ** POSIX rules, full forms (Proofs/C05Full.v): EVERY year argument, EVERY wall-clock second.
+    [rule_answer a y l]: the None / Single / Ambiguous answer as a pure function of the wall-clock
+    readings of the two rule transitions of year y (the four-branch if-chain of the Rust, verbatim). *)
+(* for every rule the reader can produce, every year an i32 can hold and every reading the rule code
+   neither traps nor fails, and answers [rule_answer] *)
+Theorem C05_rule_local_total : forall a y l, alt_ok a -> -2147483650 <= y <= 2147483650 ->
+  alt_find_local_time_type_from_local a y l = Val (Ok (rule_answer a y l)).
+Proof. exact rule_local_total. Qed.
+Print Assumptions C05_rule_local_total.
+(* against the transition-table scan over the year's two transitions, on EVERY second (no premise on
+   the year, no excepted seconds): the same answer, except on the first second of a skipped interval
+   at the year's SECOND transition, where the rule code answers None and the scan Single(type before)
+   (the two hemisphere branches "dst_start < dst_end, std > dst" and "dst_end < dst_start, std < dst"
+   of the Rust treat that second differently from the other two; the property excepts it, and None is
+   what the oracle says there).  With C05_table_scan / C05_classification_table this classifies the
+   answer against the two-transition zone [year_table a y] for every year. *)
+Theorem C05_rule_answer_table : forall a y l, ut_offset (a_std a) <> ut_offset (a_dst a) ->
+  let '(ps, first) := year_table a y in
+  ordered (windows (offs ps) (ut_offset first)) = true ->
+  rule_answer a y l = table_answer ps first l \/
+  (rule_answer a y l = MNone /\
+   exists t1 x t2 w, ps = [(t1, x); (t2, w)] /\ ut_offset x < ut_offset w /\ l = t2 + ut_offset x /\
+                     table_answer ps first l = MSingle x).
+Proof. exact rule_answer_table. Qed.
+Print Assumptions C05_rule_answer_table.
+(* against the ORACLE, for EVERY wall-clock second l of a TZ string / rule-only zone (k = the calendar
+   year of l = the year argument the glue passes, C05_glue_timestamp), under the property's premise
+   for the years k-3..k+2 and with the year's two windows disjoint and in order:
+   (a) every instant of S(l) = instants_of_wall is among the candidates -- on the excepted seconds this
+       is only an inclusion (C05_rule_every_second_example: the last second of a repeated interval gets
+       Ambiguous, the first second of a skipped interval may get Single);
+   (b) off the excepted seconds the candidates are exactly S(l), earliest first.
+   Years in which the premise fails: C05_rule_premise_refuted. *)
+Theorem C05_rule_zone_every_second : forall z a first l,
+  let k := utc_year l in let r := conv_rule a in
+  transitions z = [] -> index (local_time_types z) 0 = Val first -> extra_rule z = Some (Alternate a) ->
+  alt_ok a -> -2147483650 <= k <= 2147483650 -> r_std r <> r_dst r -> rule_year_hyps r k ->
+  let '(ps, prev) := year_table a k in
+  ordered (windows (offs ps) (ut_offset prev)) = true ->
+  exists m, find_local_time_type_from_local z k l = Val (Ok m) /\ m = rule_answer a k l /\
+  let rz := mk_szone (ut_offset first) [] (Some (inr r)) in
+  (forall t, In t (instants_of_wall rz l) -> contains m (l - t)) /\
+  (excepted_table (offs ps) (ut_offset prev) l = false -> classified rz l m).
+Proof. exact rule_zone_every_second. Qed.
+Print Assumptions C05_rule_zone_every_second.
+(* roundtrip for a TZ string on EVERY instant t, excepted boundary seconds included: the answer at the
+   wall reading t + off(t) contains off(t) *)
+Theorem C05_roundtrip_rule_zone : forall z a first t,
+  let r := conv_rule a in let o := roff r t in let l := t + o in let k := utc_year l in
+  transitions z = [] -> index (local_time_types z) 0 = Val first -> extra_rule z = Some (Alternate a) ->
+  alt_ok a -> -2147483650 <= k <= 2147483650 -> r_std r <> r_dst r -> rule_year_hyps r k ->
+  ordered (windows (offs (fst (year_table a k))) (ut_offset (snd (year_table a k)))) = true ->
+  exists m, find_local_time_type_from_local z k l = Val (Ok m) /\ contains m o.
+Proof. exact roundtrip_rule_zone. Qed.
+Print Assumptions C05_roundtrip_rule_zone.
+(* inhabited, and the inclusions are strict on excepted seconds: CET-1CEST,M3.5.0,M10.5.0/3 in 2024 *)
+Theorem C05_rule_every_second_example :
+  alt_ok exc_rule /\ rule_year_hyps (conv_rule exc_rule) 2024 /\
+  ordered (windows (offs (fst (year_table exc_rule 2024))) (ut_offset (snd (year_table exc_rule 2024)))) = true /\
+  utc_year 1729998000 = 2024 /\
+  excepted_table (offs (fst (year_table exc_rule 2024))) (ut_offset (snd (year_table exc_rule 2024))) 1729998000 = true /\
+  find_local_time_type_from_local exr_zone 2024 1729998000 = Val (Ok (MAmbiguous ex_cest ex_cet)) /\
+  instants_of_wall exr_rz 1729998000 = [1729994400] /\
+  find_local_time_type_from_local exr_zone 2024 1711850400 = Val (Ok (MSingle ex_cet)) /\
+  instants_of_wall exr_rz 1711850400 = [] /\
+  find_local_time_type_from_local exr_zone 2024 1711854000 = Val (Ok (MSingle ex_cest)) /\
+  instants_of_wall exr_rz 1711854000 = [1711846800].
+Proof. exact exr_facts. Qed.
+Print Assumptions C05_rule_every_second_example.
+(* the premise on the years cannot be dropped: AAA0BBB,J200/0,J1/0:30 falls back across the year
+   boundary; 2023-12-31T23:45:00 occurs twice, the rule code (two transitions of 2023 only) answers
+   Single(BBB); every other hypothesis of C05_rule_zone_every_second holds.  Outside the property's
+   premise (the judge skips: premise_at), hence no finding; the real code gives the same answer
+   (corpus/C05/premise.case) *)
+Theorem C05_rule_premise_refuted :
+  alt_ok prem_rule /\ r_std (conv_rule prem_rule) <> r_dst (conv_rule prem_rule) /\
+  utc_year 1704066300 = 2023 /\
+  ordered (windows (offs (fst (year_table prem_rule 2023))) (ut_offset (snd (year_table prem_rule 2023)))) = true /\
+  excepted_wall prem_rz 1704066300 = false /\
+  premise_year (conv_rule prem_rule) 2023 = false /\ premise_year (conv_rule prem_rule) 2024 = false /\
+  find_local_time_type_from_local prem_zone 2023 1704066300 = Val (Ok (MSingle prem_dst)) /\
+  instants_of_wall prem_rz 1704066300 = [1704062700; 1704066300].
+Proof. exact rule_premise_refuted. Qed.
+Print Assumptions C05_rule_premise_refuted.
 
 (* FULL classification for a TZ string (zone given by a POSIX rule alone): for a wall reading l of
    year k = utc_year l, off the excepted boundary seconds, under the property's premise for the
@@ -392,6 +480,52 @@ Theorem C05_offset_at_composite : forall z ps first a tl pv ol t,
 Proof. exact offset_at_composite. Qed.
 Print Assumptions C05_offset_at_composite.
 
+(* FULL STRENGTH, no continuity assumption: for EVERY instant t the code answers the table's offset
+   strictly before the last table transition tl and the rule's offset from tl on (tl included);
+   against the oracle: this is [zone_off] wherever the standards prescribe an offset, and at t = tl,
+   when table and footer disagree there (zone_off = None), the rule's offset.  (A file with such a
+   disagreement is rejected by the reader: TimeZoneRef::validate, C16.)  Supersedes
+   C05_offset_at_composite, which assumes [roff r tl = ol]. *)
+Theorem C05_offset_at_composite_full : forall z ps first a tl pv ol t,
+  let r := conv_rule a in
+  let cz := mk_szone (ut_offset first) (offs ps) (Some (inr r)) in
+  table_zone z ps first -> leap_seconds z = [] -> extra_rule z = Some (Alternate a) ->
+  increasing (offs ps) = true -> zlen (transitions z) < 4611686018427387904 ->
+  last_window (offs ps) (ut_offset first) = Some (tl, pv, ol) ->
+  (tl <= t -> rule_hyps a t) ->
+  exists lt, find_local_time_type z t = Val (Ok lt) /\
+    ut_offset lt = (if t <? tl then table_off (offs ps) (ut_offset first) t else roff r t) /\
+    (zone_off cz t = Some (ut_offset lt) \/
+     (t = tl /\ zone_off cz t = None /\ ol <> roff r tl)).
+Proof. exact offset_at_composite_full. Qed.
+Print Assumptions C05_offset_at_composite_full.
+(* the same for a table followed by a FIXED footer, with no hypothesis on the footer *)
+Theorem C05_offset_at_composite_fixed : forall z ps first f tl pv ol t,
+  let cz := mk_szone (ut_offset first) (offs ps) (Some (inl (ut_offset f))) in
+  table_zone z ps first -> leap_seconds z = [] -> extra_rule z = Some (Fixed f) ->
+  increasing (offs ps) = true -> zlen (transitions z) < 4611686018427387904 ->
+  last_window (offs ps) (ut_offset first) = Some (tl, pv, ol) ->
+  exists lt, find_local_time_type z t = Val (Ok lt) /\
+    ut_offset lt = (if t <? tl then table_off (offs ps) (ut_offset first) t else ut_offset f) /\
+    (zone_off cz t = Some (ut_offset lt) \/
+     (t = tl /\ zone_off cz t = None /\ ol <> ut_offset f)).
+Proof. exact offset_at_composite_fixed. Qed.
+Print Assumptions C05_offset_at_composite_fixed.
+(* both alternatives are inhabited: the Berlin-like zone at its last transition instant (agreement),
+   and a table whose last transition switches to CEST on 2023-12-31 while the footer says CET *)
+Theorem C05_offset_at_composite_full_example :
+  table_zone disag_zone disag_ps ex_cet /\ leap_seconds disag_zone = [] /\
+  last_window (offs disag_ps) (ut_offset ex_cet) = Some (1704060000, 3600, 7200) /\
+  rule_hyps exc_rule 1704060000 /\
+  zone_off (mk_szone (ut_offset ex_cet) (offs disag_ps) (Some (inr (conv_rule exc_rule)))) 1704060000 = None /\
+  roff (conv_rule exc_rule) 1704060000 = 3600 /\
+  find_local_time_type disag_zone 1704060000 = Val (Ok ex_cet) /\
+  find_local_time_type disag_zone 1704059999 = Val (Ok ex_cet) /\
+  rule_hyps exc_rule 1698541200 /\
+  zone_off exc_cz 1698541200 = Some 3600 /\ find_local_time_type exc_zone 1698541200 = Val (Ok ex_cet).
+Proof. exact disag_facts. Qed.
+Print Assumptions C05_offset_at_composite_full_example.
+
 (* the hypotheses are inhabited: Europe/Berlin's two transitions of 2023 followed by the footer
    CET-1CEST,M3.5.0,M10.5.0/3 *)
 Theorem C05_composite_example :
@@ -443,6 +577,96 @@ Theorem C05_judge_spacing_example :
   utc_year 1698541200 = utc_year (1698541200 + 3600).
 Proof. exact exc_judge. Qed.
 Print Assumptions C05_judge_spacing_example.
+
+(** ** Composite zones WITHOUT clause (1): the last table transition may straddle a year boundary
+    (Proofs/C05Wide.v).  [footer_continues_wide cz] (decidable): the offset after the last table
+    transition tl is the rule's offset there, and every rule transition T of the calendar years
+    k1 = [footer_year_lo cz] <= k2 = [footer_year_hi cz] (the years met by the wall-clock interval
+    [tl + min(std, dst), tl + max(std, dst, offset before tl)]; at most two consecutive years) has its
+    window after the last table window when T > tl and at or before its end when T <= tl.  Nothing is
+    asked about the position of tl in its year.  With k1 = k2 this is [footer_continues]
+    (C05_footer_continues_wide_of), so C05_composite_instants / C05_composite_classification /
+    C05_roundtrip_composite are the one-year instances of the three theorems below. *)
+Theorem C05_footer_continues_wide_of : forall z, footer_continues z = true ->
+  footer_continues_wide z = true /\ footer_year_lo z = footer_year z /\ footer_year_hi z = footer_year z.
+Proof. exact footer_continues_wide_of. Qed.
+Print Assumptions C05_footer_continues_wide_of.
+
+Theorem C05_composite_instants_wide : forall first tr r tl pv ol l,
+  let cz := mk_szone first tr (Some (inr r)) in
+  increasing tr = true -> ordered (windows tr first) = true ->
+  last_window tr first = Some (tl, pv, ol) ->
+  footer_continues_wide cz = true ->
+  rule_year_hyps r (footer_year_lo cz) -> rule_year_hyps r (footer_year_hi cz) ->
+  (l <= tl + Z.max pv ol ->
+   forall t, In t (instants_of_wall cz l) <-> In t (instants_of_wall (mk_szone first tr None) l)) /\
+  (tl + Z.max pv ol < l ->
+   forall t, In t (instants_of_wall cz l) <-> In t (instants_of_wall (mk_szone first [] (Some (inr r))) l)).
+Proof. exact composite_instants_wide. Qed.
+Print Assumptions C05_composite_instants_wide.
+
+(* unique / twice / skipped and order for EVERY wall reading off the excepted seconds, with no
+   condition on where the last table transition lies in its year *)
+Theorem C05_composite_classification_wide : forall z ps first a l,
+  let k := utc_year l in let r := conv_rule a in
+  let cz := mk_szone (ut_offset first) (offs ps) (Some (inr r)) in
+  table_zone z ps first -> extra_rule z = Some (Alternate a) -> alt_ok a -> r_std r <> r_dst r ->
+  increasing (offs ps) = true -> spacing_table (offs ps) (ut_offset first) = true ->
+  footer_continues_wide cz = true ->
+  rule_year_hyps r (footer_year_lo cz) -> rule_year_hyps r (footer_year_hi cz) ->
+  (footer_hi cz < l -> rule_reading_hyps a l) ->
+  excepted_wall cz l = false ->
+  exists m, find_local_time_type_from_local z k l = Val (Ok m) /\ classified cz l m.
+Proof. exact composite_classification_wide. Qed.
+Print Assumptions C05_composite_classification_wide.
+
+Theorem C05_roundtrip_composite_wide : forall z ps first a t o,
+  let r := conv_rule a in
+  let cz := mk_szone (ut_offset first) (offs ps) (Some (inr r)) in
+  let l := t + o in
+  table_zone z ps first -> extra_rule z = Some (Alternate a) -> alt_ok a -> r_std r <> r_dst r ->
+  increasing (offs ps) = true -> spacing_table (offs ps) (ut_offset first) = true ->
+  footer_continues_wide cz = true ->
+  rule_year_hyps r (footer_year_lo cz) -> rule_year_hyps r (footer_year_hi cz) ->
+  (footer_hi cz < l -> rule_reading_hyps a l) ->
+  zone_off cz t = Some o -> excepted_wall cz l = false ->
+  exists m, find_local_time_type_from_local z (utc_year l) l = Val (Ok m) /\ contains m o.
+Proof. exact roundtrip_composite_wide. Qed.
+Print Assumptions C05_roundtrip_composite_wide.
+
+(* against the JUDGE's domain: a zone the judge calls well spaced ([J.spacing_rule_table]) whose offset
+   after the last table transition is the rule's, with the offset before it below a day (the judge
+   skips wall readings of zones with larger offsets), satisfies the wide condition; the year-position
+   hypotheses of C05_judge_spacing_footer_continues are gone *)
+Theorem C05_judge_spacing_footer_wide : forall first tr r tl pv ol,
+  let cz := mk_szone first tr (Some (inr r)) in
+  increasing tr = true -> last_window tr first = Some (tl, pv, ol) ->
+  J.spacing_rule_table cz r = true ->
+  roff r tl = ol -> -86400 < pv < 86400 ->
+  rule_year_hyps r (footer_year_lo cz) -> rule_year_hyps r (footer_year_hi cz) ->
+  footer_continues_wide cz = true.
+Proof. exact judge_spacing_footer_wide. Qed.
+Print Assumptions C05_judge_spacing_footer_wide.
+
+(* inhabited by a zone the one-year condition excludes: +02:00 without daylight time up to
+   2023-12-31T22:00:00Z, then CET with the footer CET-1CEST,M3.5.0,M10.5.0/3; the last table window
+   (the hour read twice) ends on the year boundary.  The same readings are regression cases of the
+   correspondence run (corpus/C05/straddle.case): the real code agrees *)
+Theorem C05_composite_wide_example :
+  table_zone strad_zone strad_ps strad_eet /\ extra_rule strad_zone = Some (Alternate exc_rule) /\
+  increasing (offs strad_ps) = true /\ spacing_table (offs strad_ps) (ut_offset strad_eet) = true /\
+  footer_continues strad_cz = false /\ footer_continues_wide strad_cz = true /\
+  footer_year_lo strad_cz = 2023 /\ footer_year_hi strad_cz = 2024 /\ footer_hi strad_cz = 1704067200 /\
+  rule_year_hyps (conv_rule exc_rule) 2023 /\ rule_year_hyps (conv_rule exc_rule) 2024 /\
+  J.spacing_rule_table strad_cz (conv_rule exc_rule) = true /\
+  excepted_wall strad_cz 1704065400 = false /\ excepted_wall strad_cz 1704069000 = false /\
+  rule_reading_hyps exc_rule 1704069000 /\
+  find_local_time_type_from_local strad_zone 2023 1704065400 = Val (Ok (MAmbiguous strad_eet ex_cet)) /\
+  instants_of_wall strad_cz 1704065400 = [1704058200; 1704061800] /\
+  find_local_time_type_from_local strad_zone 2024 1704069000 = Val (Ok (MSingle ex_cet)) /\
+  instants_of_wall strad_cz 1704069000 = [1704065400].
+Proof. exact strad_facts. Qed.
+Print Assumptions C05_composite_wide_example.
 
 (* a table followed by a FIXED footer (zones that abolished daylight time, "JST-9"): when the footer's
    offset is the offset after the last transition the same classification holds, for every reading
@@ -651,6 +875,69 @@ Theorem C05_from_local_values_example :
   end.
 Proof. exact exg_facts. Qed.
 Print Assumptions C05_from_local_values_example.
+
+(** ** The theorems' hypotheses against the JUDGE's domain (Proofs/C05Holds.v), at the level of the
+    lookup: whenever the judge has an expectation for a wall-clock reading w ([J.expected_loc] = Some l,
+    i.e. none of its skip conditions applies: zone model well formed, w within the date range less
+    three days, every offset of the zone below a day, the property's premise in the years y-2..y+2 of w,
+    w not an excepted second, no undetermined instant) on a zone that is well spaced at w
+    ([J.spacing_ok]: the condition by which gen/C05.py routes a reading to lz.loc / lz.sel rather than
+    to the known-finding ops lz.uloc / lz.usel -- the judge's lz.loc branch itself does not test it),
+    the answer of find_local_time_type_from_local, read as offsets earliest first, IS the judge's
+    expected list.  From there to the output of the op: C05_from_local_values_candidates.
+    The judge's domain is wider than the hypotheses of C05_rule_zone_classification in one respect:
+    it asks for the premise in y-2..y+2, that theorem (rule_year_hyps) in y-3..y+2.
+    C05_holds_loc_rule_exact closes this for rule-only zones: on EXACTLY the judge's domain (premise in
+    y-2..y+2 only) plus the routing condition; the year y-3 is replaced by the bound that a rule
+    transition of year y-3 lies more than two days before year y (from C05_transition_date,
+    C05_rule_is_dst_year_judge_premise).  C05_holds_loc_rule (with the year y-3 as a hypothesis) is kept
+    and superseded by it.  Composite zones: the bridge is C05_judge_spacing_footer_wide (hypotheses of
+    C05_composite_classification_wide from the judge's spacing condition; those theorems still use
+    rule_year_hyps, i.e. y-3..y+2, for the readings past the last table window). *)
+Theorem C05_holds_loc_table : forall zone ps first y w l,
+  table_zone zone ps first -> extra_rule zone = None -> increasing (offs ps) = true ->
+  J.spacing_ok (szone_of ps first) w = true ->
+  J.expected_loc (zone_offsets (szone_of ps first)) (szone_of ps first) w = Some l ->
+  exists m, find_local_time_type_from_local zone y w = Val (Ok m) /\ mlt_list (mlt_map m ut_offset) = l.
+Proof. exact holds_loc_table. Qed.
+Print Assumptions C05_holds_loc_table.
+Theorem C05_holds_loc_rule : forall zone a first w l,
+  let r := conv_rule a in let k := utc_year w in
+  let rz := mk_szone (ut_offset first) [] (Some (inr r)) in
+  transitions zone = [] -> index (local_time_types zone) 0 = Val first ->
+  extra_rule zone = Some (Alternate a) -> alt_ok a -> r_std r <> r_dst r ->
+  J.spacing_ok rz w = true -> premise_year r (k - 3) = true ->
+  J.expected_loc (zone_offsets rz) rz w = Some l ->
+  exists m, find_local_time_type_from_local zone k w = Val (Ok m) /\ mlt_list (mlt_map m ut_offset) = l.
+Proof. exact holds_loc_rule. Qed.
+Print Assumptions C05_holds_loc_rule.
+(* the oracle's DST predicate in terms of the two transitions of the reading year under the JUDGE's
+   premise (years k-2..k+2, [rule_year_hyps5]) for every rule the reader can produce *)
+Theorem C05_rule_is_dst_year_judge_premise : forall a k t, alt_ok a -> -2147483640 <= k <= 2147483650 ->
+  let r := conv_rule a in
+  rule_year_hyps5 r k ->
+  (year_start k <= t + r_std r < year_start (k + 1) \/ year_start k <= t + r_dst r < year_start (k + 1)) ->
+  rule_is_dst r t = yform (rule_start_utc r k) (rule_end_utc r k) t.
+Proof. exact rule_is_dst_year5. Qed.
+Print Assumptions C05_rule_is_dst_year_judge_premise.
+Theorem C05_holds_loc_rule_exact : forall zone a first w l,
+  let r := conv_rule a in let k := utc_year w in
+  let rz := mk_szone (ut_offset first) [] (Some (inr r)) in
+  transitions zone = [] -> index (local_time_types zone) 0 = Val first ->
+  extra_rule zone = Some (Alternate a) -> alt_ok a -> r_std r <> r_dst r ->
+  J.spacing_ok rz w = true ->
+  J.expected_loc (zone_offsets rz) rz w = Some l ->
+  exists m, find_local_time_type_from_local zone k w = Val (Ok m) /\ mlt_list (mlt_map m ut_offset) = l.
+Proof. exact holds_loc_rule5. Qed.
+Print Assumptions C05_holds_loc_rule_exact.
+Theorem C05_holds_loc_example :
+  J.spacing_ok (szone_of ex_ps ex_cet) 1698546600 = true /\
+  J.expected_loc (zone_offsets (szone_of ex_ps ex_cet)) (szone_of ex_ps ex_cet) 1698546600 = Some [7200; 3600] /\
+  J.spacing_ok exr_rz 1729996200 = true /\ premise_year (conv_rule exc_rule) (utc_year 1729996200 - 3) = true /\
+  J.expected_loc (zone_offsets exr_rz) exr_rz 1729996200 = Some [7200; 3600] /\
+  J.expected_loc (zone_offsets exr_rz) exr_rz 1711852200 = Some [].
+Proof. exact holds_examples. Qed.
+Print Assumptions C05_holds_loc_example.
 
 (** ** Known finding C05-closely-spaced-transitions: the spacing hypothesis of
     C05_classification_table / C05_roundtrip_table cannot be dropped *)
